@@ -105,7 +105,8 @@ def may_raise(node: Optional[ast.AST]) -> bool:
 
 def is_capture_exceptions(item: ast.withitem) -> Optional[ast.expr]:
     e = item.context_expr
-    if isinstance(e, ast.Call) and unparse(e.func).split('.')[-1] == 'capture_exceptions' and e.args:
+    # (with ignore=(...) some exceptions pass through: then it is not a container)
+    if isinstance(e, ast.Call) and unparse(e.func).split('.')[-1] == 'capture_exceptions' and e.args and len(e.args) == 1 and not e.keywords:
         return e.args[0]
     return None
 
